@@ -227,6 +227,14 @@ var (
 		Text: "the bytes validated are the bytes given: json.Decode passes its parameter, unmodified, to the validity automaton"}
 	rLIT2 = &Rule{Name: "LIT.2", Floor: 2, Fn: ruleLIT2,
 		Text: "in every branch the parser takes for a string token, the token's text is used only as the argument of strconv.Unquote, as a node's Literal field or in an error message"}
+	rCOPY3 = &Rule{Name: "COPY.3", Floor: 2, Fn: ruleCOPY3,
+		Text: "a copied closure keeps its captured variables: CompiledFunction.Copy hands the receiver's variable cells on and makes none of its own (as a copied function that refers to a global keeps referring to it)"}
+	rSTATE1 = &Rule{Name: "STATE.1", Floor: 1, Fn: ruleSTATE1,
+		Text: "compiling, de-duplicating, encoding and decoding are functions of their inputs: no function reachable from those entry points writes a package-level variable of the module (stores, map updates, sync.Map / atomic mutators)"}
+	rOPT6 = &Rule{Name: "OPT.6", Floor: 2, Fn: ruleOPT6,
+		Text: "the optimizer removes only dead code: in the copying pass of optimizeFunc every skipped instruction is skipped under the dead-code flag"}
+	rSEM4 = &Rule{Name: "SEM.4", Floor: 1, Fn: ruleSEM4,
+		Text: "the compiler is syntax-directed: no function of the compiler builds syntax-tree nodes of its own (one tabled desugaring: the literal 1 of ++/--)"}
 	rCALL1 = &Rule{Name: "CALL.1", Floor: 1, Fn: ruleCALL1,
 		Text: "the array of variadic arguments that OpCall builds stands on storage made in that arm, never on the slice of a spread operand (SSA value-origin analysis)"}
 	rADPT6 = &Rule{Name: "ADPT.6", Floor: 2, Fn: ruleADPT6,
@@ -248,15 +256,15 @@ func allProperties() []*Property {
 		{ID: "C01",
 			Decided:    "compiler, generic codec, opcode tables and every VM arm agree byte for byte on the instruction format.",
 			NotDecided: "the language semantics themselves (values computed by operators, control flow, scoping, builtins).",
-			Rules:      []*Rule{rCODEC1, rCODEC2, rCODEC3, rCODEC4, rFRESH, rOPARM, rOPDOC, rSEM, rSEM3, rIDX1, rTWIN1, rFAM1, rSYM1, rSYM3, rCALL1, rSTK1, rSTK2, rBLT1, rALIAS1, rSCOPE2}},
+			Rules:      []*Rule{rCODEC1, rCODEC2, rCODEC3, rCODEC4, rFRESH, rOPARM, rOPDOC, rSEM, rSEM3, rIDX1, rTWIN1, rFAM1, rSYM1, rSYM3, rCALL1, rSTK1, rSTK2, rBLT1, rALIAS1, rSCOPE2, rSEM4}},
 		{ID: "C02",
 			Decided:    "instruction format agreement; opcode-class agreement.",
 			NotDecided: "stack balance and jump well-formedness for all compiled programs.",
-			Rules:      []*Rule{rCODEC1, rCODEC2, rCODEC3, rCODEC4, rCODEC5, rJMP1, rJMP2, rJMP3, rSEM3, rSTK1, rSTK2, rRET1, rRET2, rSCOPE1}},
+			Rules:      []*Rule{rCODEC1, rCODEC2, rCODEC3, rCODEC4, rCODEC5, rJMP1, rJMP2, rJMP3, rSEM3, rSTK1, rSTK2, rRET1, rRET2, rSCOPE1, rSYM1}},
 		{ID: "C03",
 			Decided:    "the optimizer's notion of jump / terminator is the VM's (opcode classes extracted from the VM arms).",
 			NotDecided: "equivalence of optimised and unoptimised code for all programs.",
-			Rules:      []*Rule{rCODEC5, rOPT, rOPT5, rRET1, rJMP3}},
+			Rules:      []*Rule{rCODEC5, rCODEC3, rOPT, rOPT5, rOPT6, rRET1, rJMP3}},
 		{ID: "C04",
 			Decided:    "every explicit panic reachable from the scan/parse/compile entry points is recovered in place, proven unreachable from re-checked premises, or a listed finding; scope switches are exhaustive; the globals slot count is checked; compiler scope/loop stacks are balanced on error paths; parser error positions are token/node start positions.",
 			NotDecided: "termination; implicit run-time panics in general (index, nil, slice bounds); that every reported position lies inside the input.",
@@ -264,7 +272,7 @@ func allProperties() []*Property {
 		{ID: "C05",
 			Decided:    "the structure that turns any ordinary panic of the VM goroutine into a returned error, waits for that goroutine, and releases the lock by defer on every exit.",
 			NotDecided: "which run-time faults a script can provoke; faults recover() cannot catch are only partly covered (thorough).",
-			Rules:      []*Rule{rREC, rREC3, rLOCK, rFRESHVM, rFATAL1, rABORT, rLOOP1, rNIL1}},
+			Rules:      []*Rule{rREC, rREC3, rLOCK, rFRESHVM, rFATAL1, rABORT, rLOOP1, rNIL1, rXCH}},
 		{ID: "C06",
 			Decided:    "count-then-check at every allocation site with a count-down counter read only against zero; every object the VM creates is counted; every String/Bytes producer in package tengo is guarded or bounded by construction; formatter output grows only behind the limit check; frame pushes are guarded.",
 			NotDecided: "the numbers as run-time facts (exactly N allocations, results unchanged when N grows); allocation inside Go library calls; stdlib-module producers.",
@@ -280,7 +288,7 @@ func allProperties() []*Property {
 		{ID: "C09",
 			Decided:    "no route from the storage of an immutable array/map to a write or to a mutable owner, in any function of any package (ownership rule on two fields).",
 			NotDecided: "immutability broken by embedder code or unsafe/reflect (neither occurs in the tree).",
-			Rules:      []*Rule{rIMM1, rIMM2, rIMM3, rIMM4, rCOPY1, rTWIN1}},
+			Rules:      []*Rule{rIMM1, rIMM2, rIMM3, rIMM4, rCOPY1, rTWIN1, rOPT6}},
 		{ID: "C10",
 			Decided:    "Copy is deep and fresh for every container.",
 			NotDecided: "arithmetic results; NaN/±0 laws as numeric facts.",
@@ -292,11 +300,11 @@ func allProperties() []*Property {
 		{ID: "C11",
 			Decided:    "the three variable families' selector-assignment arms are clones; operand decoding of all Local/Free/Global opcodes agrees with the encoder.",
 			NotDecided: "the metamorphic relation itself (needs executing transformed programs).",
-			Rules:      []*Rule{rFAM1, rLOCALTS, rCODEC3, rSYM1, rSYM2, rSYM3, rTAIL, rSCOPE2}},
+			Rules:      []*Rule{rFAM1, rLOCALTS, rCODEC3, rSYM1, rSYM2, rSYM3, rTAIL, rSCOPE2, rCOPY3}},
 		{ID: "C13",
 			Decided:    "module bodies are compiled against a fresh builtin-only table; the cycle check dominates and walks the import stack; compile-once ordering at the root cache; import = CONST+CALL; exported values pass OpImmutable; file APIs are confined behind the permission flag.",
 			NotDecided: "termination and the exact success condition over all import graphs as a run-time fact.",
-			Rules:      []*Rule{rMOD, rMOD6, rIMM4}},
+			Rules:      []*Rule{rMOD, rMOD6, rIMM4, rSTATE1}},
 		{ID: "C14",
 			Decided:    "sentinel and host errors survive to the caller wrapped with %w; every instruction gets a source position keyed by its own offset, kept consistent through the optimizer; call-site ips are saved before frame switches and looked up innermost first.",
 			NotDecided: "that a reported position lies within the failing statement (depends on per-opcode ip bookkeeping and each program's source map).",
@@ -304,7 +312,7 @@ func allProperties() []*Property {
 		{ID: "C16",
 			Decided:    "the VM's tail-call predicate is exactly 'next is RET or POP;RET'; the reuse path grows no frame and overwrites parameter slots directly; the compiler places RET directly after the documented tail positions.",
 			NotDecided: "that deep recursion terminates with the right value.",
-			Rules:      []*Rule{rTAIL, rCODEC3, rCALL1, rLOCALTS}},
+			Rules:      []*Rule{rTAIL, rCODEC3, rCALL1, rLOCALTS, rCODEC5, rOPT}},
 		{ID: "C17",
 			Decided:    "all output goes through writers guarded by MaxStringLen; explicit panics are the limit error or proven unreachable; width/precision are bounded; printer pooling hygiene; verb dispatch, flag parsing and the verbatim-ported helpers agree with the building toolchain's fmt.",
 			NotDecided: "equality with fmt.Sprintf for all inputs (the non-identical parts of the port: fmtInteger, fmtFloat, fmtC, padding, doFormat's argument handling); implicit index panics inside digit loops.",
@@ -324,6 +332,6 @@ func allProperties() []*Property {
 		{ID: "C12",
 			Decided:    "constant re-indexing covers exactly the opcodes through which the VM reads the constant pool, with the operand layout of the tables.",
 			NotDecided: "behavioural equality after de-duplication / gob round trip.",
-			Rules:      []*Rule{rCODEC5, rDEDUP1, rDEDUP3, rDEDUP4, rDEDUP5, rGOB}},
+			Rules:      []*Rule{rCODEC5, rDEDUP1, rDEDUP3, rDEDUP4, rDEDUP5, rGOB, rSTATE1}},
 	}
 }
